@@ -308,7 +308,8 @@ func (c *limRtCase) Run() (sx.V, error) {
 	return sx.L(outs...), nil
 }
 
-// Sizes are whole KiB and nothing else touches the directory: the region in which C16 is proved.
+// Most sizes are whole KiB and nothing else touches the directory: the region in which C16 is proved; one plan in
+// five (and one pinned plan) uses other sizes, to tie the real loop's books to the model's inside F14-kib as well.
 func genLimRT(tier string, rng *Rng) []Case {
 	n := 28
 	if tier == "thorough" {
@@ -323,9 +324,20 @@ func genLimRT(tier string, rng *Rng) []Case {
 		{"fill", 2, 16384}, {"fill", 3, 16384}, {"quiet", 0, 0}}}})
 	out = append(out, &limRtCase{plan: RtPlan{Max: 49152, Pre: -1, Steps: []RtStep{{"fill", varyBase, 16384}, {"fill", varyBase + 1, 16384}, {"fill", 2, 16384}, {"fill", 3, 16384},
 		{"quiet", 0, 0}, {"fill", 4, 16384}, {"quiet", 0, 0}}}})
+	// sizes that are not whole KiB (the region of known finding F14-kib: the books are kept in KiB, rounded down):
+	// the real loop must still keep them exactly as the model says - fills, hits on them, a pass, a small fill, a pass
+	out = append(out, &limRtCase{plan: RtPlan{Max: 20992, Pre: -1, Steps: []RtStep{{"fill", 0, 5125}, {"fill", 1, 5125}, {"fill", 2, 5125}, {"fill", 3, 5125}, {"fill", 4, 5125},
+		{"hit", 0, 0}, {"hit", 1, 0}, {"hit", 2, 0}, {"hit", 3, 0}, {"hit", 4, 0}, {"quiet", 0, 0}, {"fill", 5, 400}, {"hit", 5, 0}, {"quiet", 0, 0}, {"fill", 6, 1025}, {"hit", 6, 0}, {"quiet", 0, 0}}}})
 	for i := 0; i < n; i++ {
 		p := RtPlan{Max: int64(rng.Pick2([]int{16384, 65536})), Pre: -1}
-		size := func() int64 { return int64(1+rng.Intn(int(p.Max/1024/2))) * 1024 }
+		odd := i%5 == 4
+		size := func() int64 {
+			sz := int64(1+rng.Intn(int(p.Max/1024/2))) * 1024
+			if odd {
+				sz += int64(1 + rng.Intn(1023))
+			}
+			return sz
+		}
 		if rng.Chance(35, 100) {
 			p.Pre = size()
 		}
